@@ -56,7 +56,9 @@ var plans = map[string]plan{
 	"C01": {Variants: append(stdVariants("base"), stdVariants("gang")[1], stdVariants("gang")[3], gangSwap), QuickRuns: 400, QuickSecs: 70, ThoroughRuns: 40000, ThoroughSecs: 1500},
 	"C02": {Variants: append(stdVariants("quota"), stdVariants("base")[0], stdVariants("gang")[1], stdVariants("gang")[2], gangSwap, gangSwap, reloadVariants("quota")[0], reloadVariants("quota")[1]), QuickRuns: 400, QuickSecs: 70, ThoroughRuns: 40000, ThoroughSecs: 1500},
 	"C03": {Variants: append(append(stdVariants("base"), stdVariants("gang")...), gangSwap), QuickRuns: 400, QuickSecs: 70, ThoroughRuns: 40000, ThoroughSecs: 1500},
-	"C04": {Variants: append(append(stdVariants("base"), stdVariants("gang")...), gangSwap), QuickRuns: 400, QuickSecs: 70, ThoroughRuns: 40000, ThoroughSecs: 1500},
+	"C04": {Variants: append(append(stdVariants("base"), stdVariants("gang")...), gangSwap,
+		variant{Name: "base-anytype", Profile: "base", Policy: "rtc", Steps: 90, Faults: with(confirmFaults, "release_any_type"), FaultRate: 0.03, Weight: 2},
+		variant{Name: "gang-anytype", Profile: "gang", Policy: "rtc", Steps: 90, Faults: with(confirmFaults, "release_any_type", "confirm_wrong_type"), FaultRate: 0.03, Weight: 2}), QuickRuns: 400, QuickSecs: 70, ThoroughRuns: 40000, ThoroughSecs: 1500},
 	"C05": {Variants: append(append(append(stdVariants("limits"), stdVariants("quota")[0]), reloadVariants("limits")...), stdVariants("gang")[1], stdVariants("gang")[2]), QuickRuns: 400, QuickSecs: 70, ThoroughRuns: 40000, ThoroughSecs: 1500},
 	"C15": {Variants: append(reloadVariants("quota"), reloadVariants("limits")...), QuickRuns: 400, QuickSecs: 70, ThoroughRuns: 40000, ThoroughSecs: 1500},
 	"C16": {Variants: append(append(reloadVariants("quota"), reloadVariants("limits")...), reloadVariants("base")...), QuickRuns: 400, QuickSecs: 70, ThoroughRuns: 40000, ThoroughSecs: 1500},
